@@ -24,20 +24,21 @@ theorem importMsg_one (m : DMsg) (t : ITree) (mx : DSig) (h : importMsg m = .ok 
     (hmux : (sortSigs m.sigs).filter (·.isMultiplexor) = [mx]) :
     importOne (8 * (m.size : Int)) m.exts mx (sortSigs m.sigs) = .ok t.top := by
   unfold importMsg at h
+  dsimp only at h
   split at h
   · cases h
-  · dsimp only at h
-    split at h
+  · split at h
     · cases h
     · split at h
       · cases h
-      · split at h
-        · cases h
-        · rename_i top hres
-          injection h with h
-          subst h
-          rw [hmux] at hres
-          exact hres
+      · rename_i top nested hres
+        injection h with h
+        subst h
+        rw [hmux] at hres
+        obtain ⟨top0, hp, hpair⟩ := except_map_ok _ _ _ hres
+        injection hpair with e1 e2
+        subst e1
+        exact hp
 
 /-- D75 on `importOne`: a standard signal that starts behind the multiplexor's start and before
     the start of some multiplexed signal becomes a child of the multiplexer -/
